@@ -274,4 +274,129 @@ theorem runStore_refines {σ : Type} {S : Store σ} {view : σ → Int → Val} 
     | none => exact ⟨st, rfl, rfl, fun _ _ => rfl⟩
     | some b => exact ih b ans (c + 1) st (hk b)
 
+/-! ### Lua's `<` on numbers (exact, no NaN) and on strings (bytewise) is a strict weak order -/
+
+theorem ltD_num (a b : Val) (x y : Num) (ha : a.num? = some x) (hb : b.num? = some y)
+    (hx : x.isNaN = false) (hy : y.isNaN = false) : ltD a b = decide (x.key < y.key) := by
+  unfold ltD luaLt
+  simp [ha, hb, Num.lt, hx, hy]
+
+theorem lua_lt_swo_numbers (l : List Val) (h : ∀ v ∈ l, ∃ x, v.num? = some x ∧ x.isNaN = false) :
+    SWOOn ltD l := by
+  refine ⟨?_, ?_, ?_⟩
+  · intro a ha
+    obtain ⟨x, hx, hn⟩ := h a ha
+    rw [ltD_num a a x x hx hx hn hn]; simp
+  · intro a ha b hb c hc
+    obtain ⟨x, hx, hxn⟩ := h a ha
+    obtain ⟨y, hy, hyn⟩ := h b hb
+    obtain ⟨z, hz, hzn⟩ := h c hc
+    rw [ltD_num a b x y hx hy hxn hyn, ltD_num b c y z hy hz hyn hzn, ltD_num a c x z hx hz hxn hzn]
+    simp only [decide_eq_true_eq]; omega
+  · intro a ha b hb c hc
+    obtain ⟨x, hx, hxn⟩ := h a ha
+    obtain ⟨y, hy, hyn⟩ := h b hb
+    obtain ⟨z, hz, hzn⟩ := h c hc
+    rw [ltD_num a b x y hx hy hxn hyn, ltD_num b c y z hy hz hyn hzn, ltD_num a c x z hx hz hxn hzn]
+    simp only [decide_eq_false_iff_not]; omega
+
+theorem bytesLt_irrefl : ∀ a : StrLib.Bytes, bytesLt a a = false := by
+  intro a; induction a with
+  | nil => rfl
+  | cons x xs ih => simp [bytesLt, ih]
+
+theorem u8_lt_iff (a b : UInt8) : a < b ↔ a.toNat < b.toNat := UInt8.lt_iff_toNat_lt
+theorem u8_eq_of (a b : UInt8) (h1 : ¬ a < b) (h2 : ¬ b < a) : a = b := by
+  rw [u8_lt_iff] at h1 h2
+  exact UInt8.toNat_inj.mp (by omega)
+
+theorem bytesLt_trans : ∀ a b c : StrLib.Bytes, bytesLt a b = true → bytesLt b c = true → bytesLt a c = true := by
+  intro a
+  induction a with
+  | nil =>
+    intro b c h1 h2
+    cases b with
+    | nil => simp [bytesLt] at h1
+    | cons y ys => cases c with
+      | nil => simp [bytesLt] at h2
+      | cons z zs => simp [bytesLt]
+  | cons x xs ih =>
+    intro b c h1 h2
+    cases b with
+    | nil => simp [bytesLt] at h1
+    | cons y ys =>
+      cases c with
+      | nil => simp [bytesLt] at h2
+      | cons z zs =>
+        simp only [bytesLt] at h1 h2 ⊢
+        by_cases xy : x < y
+        · by_cases yz : y < z
+          · have : x < z := by rw [u8_lt_iff] at *; omega
+            simp [this]
+          · by_cases zy : z < y
+            · simp [yz, zy] at h2
+            · have := u8_eq_of y z yz zy; subst this; simp [xy]
+        · by_cases yx : y < x
+          · simp [xy, yx] at h1
+          · have := u8_eq_of x y xy yx; subst this
+            simp only [xy, if_false] at h1
+            by_cases xz : x < z
+            · simp [xz]
+            · by_cases zx : z < x
+              · simp [xz, zx] at h2
+              · simp only [xz, zx, if_false] at h2 ⊢
+                exact ih ys zs h1 h2
+
+theorem bytesLt_negtrans : ∀ a b c : StrLib.Bytes, bytesLt a b = false → bytesLt b c = false → bytesLt a c = false := by
+  intro a
+  induction a with
+  | nil =>
+    intro b c h1 h2
+    cases b with
+    | nil => cases c with
+      | nil => rfl
+      | cons z zs => simp [bytesLt] at h2
+    | cons y ys => simp [bytesLt] at h1
+  | cons x xs ih =>
+    intro b c h1 h2
+    cases c with
+    | nil => simp [bytesLt]
+    | cons z zs =>
+      cases b with
+      | nil => simp [bytesLt] at h2
+      | cons y ys =>
+        simp only [bytesLt] at h1 h2 ⊢
+        by_cases xy : x < y
+        · simp [xy] at h1
+        · by_cases yz : y < z
+          · simp [yz] at h2
+          · by_cases yx : y < x
+            · have nxz : ¬ x < z := by rw [u8_lt_iff] at *; omega
+              have zx : z < x := by rw [u8_lt_iff] at *; omega
+              simp [nxz, zx]
+            · have := u8_eq_of x y xy yx; subst this
+              simp only [xy, if_false] at h1
+              by_cases zx : z < x
+              · simp [yz, zx]
+              · simp only [yz, zx, if_false] at h2 ⊢
+                exact ih ys zs h1 h2
+
+theorem lua_lt_swo_strings (l : List Val) (h : ∀ v ∈ l, ∃ s, v = .str s) : SWOOn ltD l := by
+  have e : ∀ s t : StrLib.Bytes, ltD (.str s) (.str t) = bytesLt s t := by
+    intro s t; simp [ltD, luaLt, Val.num?]
+  refine ⟨?_, ?_, ?_⟩
+  · intro a ha
+    obtain ⟨s, rfl⟩ := h a ha
+    rw [e]; exact bytesLt_irrefl s
+  · intro a ha b hb c hc
+    obtain ⟨s, rfl⟩ := h a ha
+    obtain ⟨t, rfl⟩ := h b hb
+    obtain ⟨u, rfl⟩ := h c hc
+    rw [e, e, e]; exact bytesLt_trans s t u
+  · intro a ha b hb c hc
+    obtain ⟨s, rfl⟩ := h a ha
+    obtain ⟨t, rfl⟩ := h b hb
+    obtain ⟨u, rfl⟩ := h c hc
+    rw [e, e, e]; exact bytesLt_negtrans s t u
+
 end GoluaVerif.Proofs.C19Sort
